@@ -1114,6 +1114,15 @@ def isin(a, test):
     test = list(test)
     return ndarray._make([ANY([_py_eq(x, t) for t in test]).e for x in a], dtype(builtins.bool))
 
+def setdiff1d(a, b, assume_unique=False):
+    """sorted unique values of a that are not in b (values are compared, positions are not interpreted)"""
+    a = a if isinstance(a, ndarray) else array(a)
+    b = b if isinstance(b, ndarray) else array(b)
+    u = a if assume_unique else unique(a)
+    tests = list(b)
+    cells = [c for c, x in zip(u._cells(), list(u)) if not builtins.bool(ANY([_py_eq(x, t) for t in tests]))]
+    return ndarray._make(cells, u.dtype)
+
 NUMBA_MODE = False      # set while a Numba kernel's source is executed (see vf/numba_model.py)
 
 def unique(a, return_index=False, return_inverse=False, return_counts=False, equal_nan=True):
